@@ -37,7 +37,8 @@ CLAIMED["C05"] = {
             "is bound to the parent the data sets name (s1_binds_port_to_parent, bmca_binds_slaves_to_the_parent). dataset_comparison.rs is "
             "translated on every run into Lean data (chain of Figure 34, arms of Figure 35, dispatch, as_ordering, both constructors) and the "
             "interpretation of that translation is proved equal to the model's comparison for all data sets (generated_compare_is_model, "
-            "generated_as_ordering_is_model, generated_of_announce_is_model, generated_of_own_is_model). The unrestricted transitivity claim is refuted by a kernel-checked "
+            "generated_as_ordering_is_model, generated_of_announce_is_model, generated_of_own_is_model); so is the state decision of bmc/bmca.rs "
+            "(guard, clockClass range, which best message each comparison looks at, every result arm: generated_state_decision_is_model). The unrestricted transitivity claim is refuted by a kernel-checked "
             "witness (IEEE's algorithm itself). Tie: exhaustive/random CMP stream, BMCA scenarios through real ports and the mixed stream, "
             "all compared with the model (port states, the master each Slave port listens to — hook verif_remote_master — and every data set); "
             "independent Rust transcription of Figures 34/35, an order-permutation oracle and a slave-bound-to-parent oracle on the implementation.",
@@ -137,12 +138,14 @@ CLAIMED["C11"] = {
             "recommend_m_is_own, quality_change_after_bmca); decision S1 and every later Announce of the parent on the Slave port write "
             "the announced attributes with stepsRemoved + 1 (decision_s1_datasets, parent_announce_datasets), which the next Announce of "
             "any Master port then carries (parent_change_in_next_announce); nothing else writes these data sets (timers_keep_datasets, "
-            "frames_keep_datasets, other_announce_keeps_datasets). Model tied by the inst and master streams (all data sets and every "
+            "frames_keep_datasets, other_announce_keeps_datasets). Message::announce and AnnounceMessage::time_properties are translated from the "
+            "source on every run into Lean data and the interpretation of that translation is proved equal to the model's msgAnnounce / "
+            "annTimeProps for all states and messages (generated_announce_is_model, generated_time_properties_is_model). Model tied by the inst and master streams (all data sets and every "
             "Announce after every op) plus an independent data-set oracle. One genuine finding is recorded: on M1 / M2 the time "
             "properties are reset to fixed defaults instead of the ones the instance was constructed with.",
     "note": "Trusted: Lean kernel; generators. 'While it is grandmaster' / 'while one of its ports is slave' is stated per decision and "
             "per parent Announce (the events that make it so) plus frame theorems, not as one global invariant.",
-    "technique": "Lean 4 theorems (case analysis over the decision / handler definitions, frame lemmas) + differential correspondence + independent data-set oracle",
+    "technique": "Lean 4 theorems (case analysis over the decision / handler definitions, frame lemmas) + the Announce constructor and reader translated from the source on every run and proved equal to the model + differential correspondence + independent data-set oracle",
 }
 
 CLAIMED["C15"] = {
